@@ -785,7 +785,7 @@ func (eng *Engine) VerifyFunc(fn *ssa.Function, fc *FuncContract) (res *FuncResu
 		bindResults(post, fn.Signature, x.results)
 		for k, e := range fc.Ensures {
 			g := post.evalBool(e.Expr)
-			vc.Oblige(&Obligation{Name: fmt.Sprintf("%s/post#%d@ret%d", name, k, nret), Kind: "post", Tags: e.Tags, Guard: x.reach, Goal: g, Func: name, Pos: fmt.Sprintf("%s:%d", e.File, e.Line), Note: e.Text})
+			vc.Oblige(&Obligation{Name: fmt.Sprintf("%s/post#%d@ret%d", name, k, nret), Kind: "post", Tags: e.Tags, Guard: x.reach, Goal: g, Func: name, Pos: fmt.Sprintf("%s:%d", e.File, e.Line), Note: e.Text, RetLine: eng.retLine(x.pos)})
 		}
 		if fc.HasMod {
 			ex.frameObligations(fr, fc, entry, x.st, x.reach, fmt.Sprintf("%s/frame@ret%d", name, nret), se)
@@ -1116,4 +1116,13 @@ func (ex *Exec) checkReads(fn *ssa.Function, fc *FuncContract) {
 		}
 		panic(unsupported(fmt.Sprintf("abstract function %s reads state outside its reads clause: %s", relName(fn), strings.Join(uniq, "; "))))
 	}
+}
+
+// retLine returns the trimmed source text of the line of pos ("" when unknown).
+func (eng *Engine) retLine(pos token.Pos) string {
+	if !pos.IsValid() {
+		return ""
+	}
+	p := eng.fset.Position(pos)
+	return strings.TrimSpace(eng.sourceLine(p.Filename, p.Line))
 }
